@@ -146,6 +146,8 @@ pub fn cases(seed: u64, tier: Tier) -> Cases {
             cs.fail_last("f64:spelling", format!("{:?} is written {:?}", d, t));
         }
         alias_rt(&mut cs, "DblAlias", &d, verifgen::plain::DblAlias, Some(format!("f64 {} {}", cls(d), hex(disp.as_bytes()))));
+        // the collection-key wrapper for doubles (set<double> / map<double,_> parameters travel as PLAIN text)
+        alias_rt(&mut cs, "DoubleKey", &d, conjure_object::DoubleKey, Some(format!("f64 {} {}", cls(d), hex(disp.as_bytes()))));
     }
     for s in ["Infinity", "-Infinity", "NaN", "inf", "-inf", "+inf", "infinity", "INFINITY", "+Infinity", "nan", "-NaN", "NAN", "1e400", "-1e400", "1", "1.5", "-0", "0x1p3", "", " 1", "1,5", "Infinit", "Infinityy", "-infinity", "1e-400", ".5", "5.", "+.5e1", "1e", "e1"] {
         let rust = match s.parse::<f64>() {
